@@ -37,6 +37,9 @@ func runC03(c *Ctx, tier string) {
 	// result (an NE that is overwritten by, or swapped with, another lint's result
 	// on the way into Results is a finding outside the window all the same)
 	c01Loops(c, r)
+	// … and the object whose window is tested is the caller's object: Lint*Ex hand
+	// their own argument (not a re-parsed or substituted copy) to the result loop
+	c01Entry(c, r)
 	r.Finish()
 }
 
